@@ -8,7 +8,9 @@
      R2  a mutex is only acquired while mutexes of strictly lower rank are held
          (Server.mu < referrerMu < store.mu < upload.mu < repository.mu < cache.mu);
      R3  every lock expression that occurs is one of the known classes (a new mutex has to be ranked first);
-     R5  no plain receive statement (outside a select) while any mutex is held.
+     R5  no plain receive statement (outside a select) while any mutex is held;
+     R6  no blocking wait inside a closure handed to a cache (it runs in the cache's critical section), except the site
+         listed in [known_blocking_callbacks] (finding C12-F66).
    The held set is simulated per function over the statements in source order; closures (go, func literals) start with
    nothing held; deferred unlocks hold to the end of the function. *)
 From Olareg Require Import Base.
@@ -110,6 +112,18 @@ Definition known_inversions : list (string * string) := [
 Definition known_inversion (fn op : string) : bool :=
   existsb (fun a => String.eqb (fst a) fn && String.eqb (snd a) op) known_inversions.
 
+(* R6  a closure handed to a cache runs inside that cache's critical section: a blocking wait there stalls everybody who
+       asks the cache for anything - for the repository cache of the directory store, every request to every repository,
+       and that wait does not look at a context.
+   One such wait is known and recorded as finding C12-F66: the PruneFn of the repository cache collects the repository it is
+   about to drop (dirRepo.gc waits for the requests that hold the repository).  It is listed here so that the rule still
+   constrains every other callback. *)
+Definition known_blocking_callbacks : list (string * string) := [
+  ("internal/store/dir.go:NewDir", "call gc")].
+
+Definition known_blocking_callback (fn op : string) : bool :=
+  existsb (fun a => String.eqb (fst a) fn && String.eqb (snd a) op) known_blocking_callbacks.
+
 (* ---- simulation of one function -------------------------------------------------------------------------------- *)
 Inductive frame := FBody | FClosure | FDeferred | FSelect | FIfRet.
 
@@ -158,6 +172,8 @@ Definition sim_step (fn : string) (creates_cache : bool) (s : sim) (op : string)
   else if is_blocking op then
     if existsb global_class (held s) && negb (allowed fn op)
     then mkSim (held s) (stack s) (bad s ++ [(op, "R1: blocking wait under a global mutex")])
+    else if existsb (String.eqb "cache.mu") (held s) && negb (known_blocking_callback fn op)
+    then mkSim (held s) (stack s) (bad s ++ [(op, "R6: blocking wait inside a cache's critical section")])
     else s
   else if String.prefix "<-" op then
     (* R5: a plain receive statement (not a case of a select) waits until somebody sends: never with a mutex held - nobody who
